@@ -15,6 +15,7 @@ import (
 	"os/signal"
 	"path/filepath"
 	"sync"
+	"sync/atomic"
 	"testing"
 	"time"
 
@@ -178,9 +179,17 @@ func (w *w2World) Run(t *testing.T, sc *simrt.Scenario, cfg simrt.Config) simrt.
 		initState = st0.encode()
 
 		// observe (in scheduler context) when a new configuration becomes the current one
-		last := w2Current(p)
+		// (the hook runs on the scheduler's goroutine: it shares nothing with this one but atomics)
+		var corePtr atomic.Pointer[Core]
+		var last any
+		corePtr.Store(p) // release: everything above is ordered before the hook's first Load
 		simrt.OnStep(func() {
-			if cur := w2Current(p); cur != last {
+			cur := w2Current(corePtr.Load())
+			if last == nil {
+				last = cur
+				return
+			}
+			if cur != last {
 				last = cur
 				storeSeqs = append(storeSeqs, simrt.Rec("conf.current", "", "", 0, 0, 0))
 			}
